@@ -360,9 +360,39 @@ func ruleUSER1(c *Ctx) {
 						for x != nil {
 							x = p.Parent(f.File, x)
 							if lit, ok := x.(*ast.FuncLit); ok {
-								if outer, ok := p.Parent(f.File, lit).(*ast.CallExpr); ok {
+								isRawFalse := func(outer *ast.CallExpr) bool {
 									if _, ok := MethodCall(info, outer, "jsontext", "encoderState", "AppendRaw"); ok && len(outer.Args) == 3 {
 										if tv, ok := info.Types[outer.Args[1]]; ok && tv.Value != nil && tv.Value.String() == "false" {
+											return true
+										}
+									}
+									return false
+								}
+								if outer, ok := p.Parent(f.File, lit).(*ast.CallExpr); ok && isRawFalse(outer) {
+									return true
+								}
+								// the callback may first be bound to a local: every use of that local must then be
+								// the producer argument of AppendRaw(_, false, _)
+								if as, ok := p.Parent(f.File, lit).(*ast.AssignStmt); ok && len(as.Lhs) == 1 && len(as.Rhs) == 1 {
+									if v := IdentObj(info, as.Lhs[0]); v != nil {
+										uses, okUses := 0, true
+										var encl ast.Node = f.File
+										if d := p.enclosingDecl(f); d != nil && d.Body() != nil {
+											encl = d.Body()
+										}
+										ast.Inspect(encl, func(q ast.Node) bool {
+											id2, ok := q.(*ast.Ident)
+											if !ok || info.Uses[id2] != v {
+												return true
+											}
+											uses++
+											outer, ok := p.Parent(f.File, id2).(*ast.CallExpr)
+											if !ok || !isRawFalse(outer) || outer.Args[2] != ast.Expr(id2) {
+												okUses = false
+											}
+											return true
+										})
+										if uses > 0 && okUses {
 											return true
 										}
 									}
